@@ -9,7 +9,7 @@ META = {
     "level": "translation_validation",
     "engine": "vm",
     "technique": "TLA+ spec PolicyLang (reference evaluator Eval/Exec + typed grammar-derivation generator) explored with TLC; every generated program replayed through parser -> compiler -> VM and compared with the spec's outcome (spec->impl conformance, spec as oracle)",
-    "text": "TLC enumerates every production of the typed grammar over every combination of atoms (expression depth 1: constants 0, +-1, i64::MIN, i64::MAX, parameters, literals of each type) and every statement form (let, check, debug_assert, if/else-if/else, match with bindings/default) every depth-2 nest of operators (outer operator x inner operator x side: the precedence/associativity table) and samples deeper derivations (depth 3, statement depth 2) by seeded simulation; for each program Eval gives the expected value or panic for a family of argument tuples including the i64 boundaries. The engine renders the tree to policy text, batches 200 functions per document, compiles with the real compiler and enters each function in the real VM; VIOLATION iff exit reason or returned value differ from Eval. TLC also checks the spec itself: generated programs are well typed, never stuck, results have the declared type, and the derivation actions agree with the set-valued grammar Exprs (count equality).",
+    "text": "TLC enumerates every production of the typed grammar over every combination of atoms (expression depth 1: constants 0, +-1, i64::MIN, i64::MAX, parameters, literals of each type) and every statement form (let, check, debug_assert, if/else-if/else, match with bindings/default) every depth-2 nest of operators (outer operator x inner operator x side: the precedence/associativity table), every depth-2 nest of operand-holding constructs with an early `return` at every operand position, called from a second function that uses the result as a non-first operand (stack discipline of calls), and samples deeper derivations (depth 3, statement depth 2) by seeded simulation; for each program Eval gives the expected value or panic for a family of argument tuples including the i64 boundaries. The engine renders the tree to policy text, batches 200 functions per document, compiles with the real compiler and enters each function in the real VM; VIOLATION iff exit reason or returned value differ from Eval. TLC also checks the spec itself: generated programs are well typed, never stuck, results have the declared type, and the derivation actions agree with the set-valued grammar Exprs (count equality).",
     "note": "Bounds: depth 1 exhaustive per root type (quick: int, bool, option[int], struct P; thorough: all 13 types), statement depth 1 (thorough 2 by simulation), simulation 150 (thorough 5000, 4 workers) derivations of depth <= 3; <= 16 argument tuples per program (full product when it fits, a diagonal family otherwise). Trusted: the renderer (full parentheses, and a second pass with minimal parentheses according to the documented precedence table), the spec's reading of the language (policy book semantics as implemented by the documented compiler behaviour), value conversion in the engine. Programs the compiler rejects are counted, never an alarm; the check fails as a tool error if more than 2% of spec-typed programs are rejected.",
 }
 
@@ -33,6 +33,11 @@ def run(ctx):
     runs.append(("stmt", progs2))
     _, progs4, _ = vm_util.generate(ctx, "MC_PolicyLang_prec.cfg")
     runs.append(("prec", progs4))
+    _, progs5, _ = vm_util.generate(ctx, "MC_PolicyLang_ret.cfg")
+    vm_util.require_ops(ctx, progs5, ["return", "call:saturating_add", "call:h_pick", "struct", "match"], "ret")
+    if not any("caller" in p for p in progs5):
+        raise verif.ToolError("ret configuration emitted no caller/callee pairs")
+    runs.append(("ret", progs5))
     _, progs3, _ = vm_util.generate(ctx, "MC_PolicyLang_sim.cfg", simulate=5000 if ctx.thorough else 150, depth=400)
     runs.append(("sim", progs3))
     total = 0
